@@ -270,6 +270,52 @@ def svd_stub(N, store):
     return f
 
 
+def jacobi_stub(ex, mod, dem, N, store):
+    """contract stub on the constructor Eigen::JacobiSVD<Matrix<double,N,N>>::JacobiSVD(matrix, options): the body of
+    gm2calc::svd_eigen (singularValues(), matrixU(), matrixV().adjoint()) is executed on top of it"""
+    pre = 'Eigen::JacobiSVD<Eigen::Matrix<double, %d, %d, 0, %d, %d>, 2>::JacobiSVD(Eigen::Matrix<double' % (N, N, N, N)
+    ctor = [n for n in mod.functions if dem.get(n, '').startswith(pre)]
+    base = 'Eigen::SVDBase<Eigen::JacobiSVD<Eigen::Matrix<double, %d, %d, 0, %d, %d>, 2> >::' % (N, N, N, N)
+    acc = {}
+    for what in ('singularValues', 'matrixU', 'matrixV'):
+        fn = [n for n in mod.functions if dem.get(n, '').startswith(base + what + '()')]
+        if not fn:
+            return False
+        st0 = X.State()
+        r0 = ex.new_region(st0, None, 'input', 'svdobj', lazy=True)
+        try:
+            rr = ex.explore(ex.start(fn[0], [Ptr(r0.rid, 0)], st0))
+        except Unsupported:
+            return False
+        if len(rr) != 1 or not isinstance(rr[0].retval, Ptr) or rr[0].retval.rid != r0.rid or not isinstance(rr[0].retval.off, int):
+            return False
+        acc[what] = rr[0].retval.off
+    if not ctor:
+        return False
+
+    def stub(ex_, st_, args, I):
+        this, mptr = args[0], args[1]
+        A = [[ex_.load(st_, Ptr(mptr.rid, mptr.off + 8 * (i + N * j)), llir.DOUBLE) for j in range(N)] for i in range(N)]
+        from symx.exec import PathEnd
+        if any(isinstance(x, float) for row in A for x in row):
+            st_.event('nonfinite-matrix-to-eigen', where=ex_.where(st_))
+            raise PathEnd('nonfinite-to-eigen')
+        M = store['M']
+        if not all(z3.eq(z3.simplify(zr(A[i][j])), z3.simplify(M[i][j])) for i in range(N) for j in range(N)):
+            st_.event('matrix-differs', where=ex_.where(st_))
+            raise PathEnd('matrix-differs')
+        for i in range(N):
+            ex_.store(st_, Ptr(this.rid, this.off + acc['singularValues'] + 8 * i), llir.DOUBLE, store['s'][i])
+            for j in range(N):
+                ex_.store(st_, Ptr(this.rid, this.off + acc['matrixU'] + 8 * (i + N * j)), llir.DOUBLE, store['U'][i][j])
+                # V with V^T = Vh
+                ex_.store(st_, Ptr(this.rid, this.off + acc['matrixV'] + 8 * (i + N * j)), llir.DOUBLE, store['Vh'][j][i])
+        return None
+    for n in ctor:
+        ex.stubs[n] = stub
+    return True
+
+
 def svd(chk, mod, dem, N, tier):
     fam = 'fs_svd'
     name = 'fs_svd<double,double,%d,%d>' % (N, N)
@@ -283,9 +329,12 @@ def svd(chk, mod, dem, N, tier):
     U = [[z3.Real('U%d%d' % (i, j)) for j in range(N)] for i in range(N)]
     Vh = [[z3.Real('Vh%d%d' % (i, j)) for j in range(N)] for i in range(N)]
     M = [[sum(U[i][k] * s[k] * Vh[k][j] for k in range(N)) for j in range(N)] for i in range(N)]
-    store = {'s': s, 'U': U, 'Vh': Vh}
-    ex = executor(mod, RealDom(), extra_stubs={st_names[0]: svd_stub(N, store)}, fork_select=True)
+    store = {'s': s, 'U': U, 'Vh': Vh, 'M': M}
+    ex = executor(mod, RealDom(), fork_select=True)
     ex.max_steps = 2000000
+    if not jacobi_stub(ex, mod, dem, N, store):
+        ex.stubs[st_names[0]] = svd_stub(N, store)
+        chk.not_covered.append('%s: contract placed on gm2calc::svd_eigen (Eigen::JacobiSVD members not located)' % name)
     st = X.State()
     rm = ex.new_region(st, 8 * N * N, 'input', 'm')
     rs = ex.new_region(st, 8 * N, 'stack', 's')
